@@ -37,6 +37,7 @@ import Proofs.FormatCallLex
 import Proofs.FormatDeclLex
 
 import Proofs.FormatResLex
+import Proofs.FormatStageLex
 
 import Proofs.FormatCall2Lex
 
@@ -833,5 +834,125 @@ theorem call2_near_misses :
     wfWild (.int 1) = false ∧ wfWild (.ref true [] [[0x78]]) = false := by decide +kernel
 
 end PipelineStatements
+
+/-! ## Whole `stage` declarations
+
+Model: Martian/FormatStage.lean (`fmtStage` = `Stage.format` without comments: the column widths
+of `measureParamsWidths` over all four parameter lists, `modeWidth = max(·, len "src")`, the src
+line, the quirk that re-measures the id and help columns over the chunk lists alone when the
+overall id column is wider than 30 or the help column wider than 20, `) split (`, the `using` and
+`retain` clauses; `pStage` = the grammar's `stage` production with `split_param_list` in both
+spellings, on a token list, returning the tokens after the declaration; `parseStage` = a file
+that is one stage declaration; `wfStage` = what the parser can produce).  The round trip is the
+identity on well-formed stages: the only normalisations (`split using (` → `split (`, the order
+and spelling of the resource entries, white space) are on the text side.  Tied on every run by
+harness/c09stage.go: `fmtStage` vs `FormatSrcBytes` byte for byte, `parseStage` vs every field of
+the `syntax.Stage` read by `Parser.UncheckedParse`, on generated, respelled and near-miss texts. -/
+section StageDeclarations
+open Martian.FormatExp Martian.FormatDecl Martian.FormatRes Martian.FormatStage
+open Martian.FormatCall (tLP tRP)
+open Martian.Lexer (Bytes)
+
+/-- **Round trip, whole stage declarations.**  For EVERY well-formed stage (any number of in,
+out, chunk-in and chunk-out parameters of every shape `parse_format_params` covers, ids and help
+texts of any length — hence whichever way the 35/25 cut-offs of `getWidths` and the 30/20 quirk of
+`Stage.format` fall —, every language, a command with arguments, split or not, any `Resources`
+incl. negative and fractional `mem_gb`, any retain list) the reader accepts the printed text and
+returns exactly the stage. -/
+theorem parse_format_stage (s : Stage) (hw : wfStage s = true) : parseStage (fmtStage s) = some s :=
+  parseStage_fmtStage s hw
+
+/-- **Idempotence.**  If a text reads as a well-formed stage, the formatter's output for it reads
+as the same stage, and whatever the output reads as prints to the same output again: formatting
+the output changes nothing. -/
+theorem format_stage_idem (t : Bytes) (s : Stage) (_h : parseStage t = some s) (hw : wfStage s = true) :
+    parseStage (fmtStage s) = some s ∧
+    (∀ s', parseStage (fmtStage s) = some s' → fmtStage s' = fmtStage s) := by
+  refine ⟨parseStage_fmtStage s hw, ?_⟩
+  intro s' h
+  rw [parseStage_fmtStage s hw] at h
+  injection h with h
+  rw [h]
+
+/-- **Lexing layer.**  The printed declaration followed by ANY text lexes as its token sequence
+followed by the tokens of that text (a file is a sequence of declarations). -/
+theorem lex_format_stage (s : Stage) (hw : wfStage s = true) :
+    lexAll (fmtStage s) = some (toksStage s) ∧
+    (∀ rest, lexAll (fmtStage s ++ rest) = (lexAll rest).map (toksStage s ++ ·)) :=
+  ⟨lexAll_fmtStage s hw, lexAll_fmtStage_append s hw⟩
+
+/-- **Token layer.**  `pStage` reads the tokens of the declaration and returns the token list
+that follows, provided that list does not begin with `split`, `using` or `retain` (`stageEnd`;
+every declaration keyword and the end of the input qualify). -/
+theorem read_stage (s : Stage) (hw : wfStage s = true) (rest : List Tok) (hr : stageEnd rest = true) :
+    pStage (toksStage s ++ rest) = some (s, rest) :=
+  pStage_toks s hw rest hr
+
+/-- what may follow: the end of the input and the keywords that start a declaration -/
+example : stageEnd [] = true ∧ stageEnd [.reserved sStage] = true ∧ stageEnd [.id sStruct] = true ∧
+    stageEnd [.id sFiletype] = true ∧ stageEnd [.reserved [0x70, 0x69, 0x70, 0x65, 0x6C, 0x69, 0x6E, 0x65]] = true ∧
+    stageEnd [.reserved [0x63, 0x61, 0x6C, 0x6C]] = true ∧ stageEnd [.id sUsing] = false := by decide
+
+/-- the `split using (` spelling reads as `split (` -/
+theorem read_split_using (f : Nat) (ts : List Tok) :
+    pSplit f (tRP :: .id sSplit :: .id sUsing :: tLP :: ts) = pSplit f (tRP :: .id sSplit :: tLP :: ts) :=
+  pSplit_using f ts
+
+/-- non-vacuity (`exampleStage`, `exampleStage30`: Proofs/FormatStageParse.lean): a well-formed stage that uses every clause — in and out parameters (named and
+unnamed, help, out name), chunk parameters, an id of 31 bytes and a help text of 21 bytes (over
+the 30/20 thresholds: the chunk parameters are laid out with the widths of the chunk lists alone,
+id column 7 = `default`, help column 1, not 31 and 21), all five resources with `mem_gb = -0.5`,
+a retain list, a command with arguments; the whole text reads back as the stage, and so do its
+tokens before another declaration.  With an id of 30 and a help text of 20 bytes the chunk
+parameters share the columns of the others (30, 20). -/
+example :
+    wfStage exampleStage = true ∧
+    stageWidths exampleStage = (3, 16, 31, 21) ∧ chunkW exampleStage = (7, 1) ∧ modeW exampleStage = 3 ∧
+    parseStage (fmtStage exampleStage) = some exampleStage ∧
+    pStage (toksStage exampleStage ++ [.reserved sStage]) = some (exampleStage, [.reserved sStage]) ∧
+    wfStage exampleStage30 = true ∧ stageWidths exampleStage30 = (3, 6, 30, 20) ∧
+    chunkW exampleStage30 = (30, 20) ∧ parseStage (fmtStage exampleStage30) = some exampleStage30 := by
+  set_option maxRecDepth 100000 in decide +kernel
+
+/-- Negative witnesses and spelling normalisations.  `split using (` is accepted and printed as
+`split (` (with `py` padded to the type column, 3); `split ()` is a split stage without chunk parameters (both lists may be empty); a
+stage that is not split cannot hold chunk parameters (`wfStage` false: they would not be
+printed); an in parameter named like a reserved word (`src`) is outside `wfStage`, and its
+printed form is not in the language; `) using (…) split (…)`, `retain` before `using`, an out
+parameter before an in parameter, an in parameter after the chunk outs, a missing `src` line and
+two `src` lines are all rejected. -/
+theorem stage_near_misses :
+    let srcX : List Tok := [.reserved sSrc, .reserved sPy, .str [0x22, 0x78, 0x22], tComma]
+    let hd : List Tok := [.reserved sStage, .id [0x53], tLP]
+    let inC : List Tok := [.reserved sIn, .reserved sInt, .id [0x63], tComma]
+    let outD : List Tok := [.reserved sOut, .reserved sInt, tComma]
+    let sC : Stage := ⟨[0x53], [], [], .py, [0x78], [], true, [⟨⟨⟨[sInt], 0, 0⟩, [0x63], [], []⟩, false⟩], [],
+      none, none⟩
+    pStageAll (hd ++ srcX ++ [tRP, .id sSplit, .id sUsing, tLP] ++ inC ++ [tRP]) = some sC ∧
+    pStageAll (hd ++ srcX ++ [tRP, .id sSplit, tLP] ++ inC ++ [tRP]) = some sC ∧
+    fmtStage sC = [0x73, 0x74, 0x61, 0x67, 0x65, 0x20, 0x53, 0x28, 0x0A, 0x20, 0x20, 0x20, 0x20, 0x73, 0x72,
+      0x63, 0x20, 0x70, 0x79, 0x20, 0x20, 0x22, 0x78, 0x22, 0x2C, 0x0A, 0x29, 0x20, 0x73, 0x70, 0x6C, 0x69, 0x74, 0x20,
+      0x28, 0x0A, 0x20, 0x20, 0x20, 0x20, 0x69, 0x6E, 0x20, 0x20, 0x69, 0x6E, 0x74, 0x20, 0x63, 0x2C, 0x0A, 0x29,
+      0x0A] ∧
+    pStageAll (hd ++ srcX ++ [tRP, .id sSplit, tLP, tRP]) = some { sC with chunkIns := [] } ∧
+    wfStage { sC with chunkIns := [] } = true ∧
+    wfStage { sC with split := false } = false ∧
+    pStageAll (toksStage { sC with split := false }) = some { sC with split := false, chunkIns := [] } ∧
+    wfStage { sC with ins := [⟨⟨⟨[sInt], 0, 0⟩, sSrc, [], []⟩, false⟩] } = false ∧
+    pStageAll (hd ++ [.reserved sIn, .reserved sInt, .reserved sSrc, tComma] ++ srcX ++ [tRP]) = none ∧
+    wfStage { sC with id := sStage } = false ∧
+    pStageAll (hd ++ srcX ++ [tRP, .id sUsing, tLP, tRP, .id sSplit, tLP] ++ inC ++ [tRP]) = none ∧
+    pStageAll (hd ++ srcX ++ [tRP, .id sRetain, tLP, tRP, .id sUsing, tLP, tRP]) = none ∧
+    pStageAll (hd ++ srcX ++ [tRP, .id sUsing, tLP, tRP, .id sRetain, tLP, tRP]) =
+      some ⟨[0x53], [], [], .py, [0x78], [], false, [], [], some {}, some []⟩ ∧
+    pStageAll (hd ++ outD ++ inC ++ srcX ++ [tRP]) = none ∧
+    pStageAll (hd ++ inC ++ outD ++ srcX ++ [tRP]) ≠ none ∧
+    pStageAll (hd ++ srcX ++ [tRP, .id sSplit, tLP] ++ outD ++ inC ++ [tRP]) = none ∧
+    pStageAll (hd ++ inC ++ [tRP]) = none ∧
+    pStageAll (hd ++ srcX ++ srcX ++ [tRP]) = none ∧
+    pStageAll (hd ++ srcX ++ [tRP, .id sSplit, .id sUsing, .id sUsing, tLP, tRP]) = none := by
+  set_option maxRecDepth 100000 in decide +kernel
+
+end StageDeclarations
 
 end Props.C09
